@@ -265,7 +265,10 @@ type Task struct {
 	Nontrivial bool
 }
 
-func RunTasks(sink *Sink, tasks []Task) {
+func RunTasks(sink *Sink, tasks []Task) { RunTasksNT(sink, tasks, nil) }
+
+// RunTasksNT: like RunTasks, with the non-triviality of a case decided from its observations.
+func RunTasksNT(sink *Sink, tasks []Task, nt func(Case) bool) {
 	type res struct {
 		c    Case
 		text string
@@ -292,7 +295,11 @@ func RunTasks(sink *Sink, tasks []Task) {
 	}
 	wg.Wait()
 	for i, t := range tasks {
-		sink.AddPre(out[i].c, out[i].text, out[i].js, t.Nontrivial)
+		ntv := t.Nontrivial
+		if nt != nil {
+			ntv = nt(out[i].c)
+		}
+		sink.AddPre(out[i].c, out[i].text, out[i].js, ntv)
 	}
 }
 
@@ -321,6 +328,8 @@ func main() {
 	switch *prop {
 	case "C04":
 		genC04(*out, *tier, rng)
+	case "C02", "C10", "C15":
+		genHist(*prop, *out, *tier, rng, "")
 	default:
 		fmt.Fprintln(os.Stderr, "unknown property", *prop)
 		os.Exit(2)
